@@ -83,6 +83,7 @@ struct Env {
     tokens: BTreeMap<&'static str, String>, // role -> pairing token
     expired: String,
     revoked: String,
+    revoked_twin: String,
     root: PathBuf,
     gated: bool,
     _keep: Vec<Box<dyn std::any::Any>>,
@@ -162,7 +163,7 @@ fn build_env(cfg: &Config, work: &Path, gated: bool) -> Result<Env, String> {
     let sources = SourceRegistry::new(vec![SourceFile { id: 0, path: root.join("main.st"), text: SRC_A.to_string() }]);
     let hmi_descriptor = Arc::new(Mutex::new(HmiRuntimeDescriptor::from_sources(Some(&root), &sources)));
     let clock = Arc::new(AtomicU64::new(1_000_000));
-    let (pairing, tokens, expired, revoked) = if cfg.pairing {
+    let (pairing, tokens, expired, revoked, revoked_twin) = if cfg.pairing {
         let c2 = clock.clone();
         let store = Arc::new(PairingStore::with_clock(dir.join("pairing.json"), Arc::new(move || c2.load(Ordering::SeqCst))));
         let mut tokens = BTreeMap::new();
@@ -184,6 +185,18 @@ fn build_env(cfg: &Config, work: &Path, gated: bool) -> Result<Env, String> {
         if !store.revoke(&id) {
             return Err("revoke failed".into());
         }
+        // two tokens claimed within one clock second share an id; revoking that id must disable both.
+        // Not verified here: the trials observe at the socket whether the twin is still honoured.
+        clock.fetch_add(1, Ordering::SeqCst);
+        let ids_before: BTreeSet<String> = store.list().into_iter().map(|s| s.id).collect();
+        let code = store.start_pairing();
+        let _twin_a = store.claim(&code.code, Some(AccessRole::Viewer)).ok_or("claim twin a")?;
+        let code = store.start_pairing();
+        let revoked_twin = store.claim(&code.code, Some(AccessRole::Engineer)).ok_or("claim twin b")?;
+        let twin_id = store.list().into_iter().map(|s| s.id).find(|i| !ids_before.contains(i)).ok_or("list twin")?;
+        if !store.revoke(&twin_id) {
+            return Err("revoke twin failed".into());
+        }
         for (name, role) in [("viewer", AccessRole::Viewer), ("operator", AccessRole::Operator), ("engineer", AccessRole::Engineer)] {
             if store.validate_with_role(&tokens[name]) != Some(role) {
                 return Err(format!("pairing token for {name} does not validate"));
@@ -192,9 +205,9 @@ fn build_env(cfg: &Config, work: &Path, gated: bool) -> Result<Env, String> {
         if store.validate_with_role(&expired).is_some() || store.validate_with_role(&revoked).is_some() {
             return Err("expired/revoked token still validates".into());
         }
-        (Some(store), tokens, expired, revoked)
+        (Some(store), tokens, expired, revoked, revoked_twin)
     } else {
-        (None, BTreeMap::new(), "expired-none".to_string(), "revoked-none".to_string())
+        (None, BTreeMap::new(), "expired-none".to_string(), "revoked-none".to_string(), "revoked-twin-none".to_string())
     };
     let state = Arc::new(ControlState {
         debug,
@@ -222,7 +235,7 @@ fn build_env(cfg: &Config, work: &Path, gated: bool) -> Result<Env, String> {
     });
     let sock = dir.join("ctl.sock");
     ControlServer::start(ControlEndpoint::Unix(sock.clone()), state.clone()).map_err(|e| e.to_string())?;
-    Ok(Env { cfg: cfg.clone(), state, sock, conn: None, probe, commands, clock, tokens, expired, revoked, root, gated, _keep: keep })
+    Ok(Env { cfg: cfg.clone(), state, sock, conn: None, probe, commands, clock, tokens, expired, revoked, revoked_twin, root, gated, _keep: keep })
 }
 
 impl Env {
@@ -480,9 +493,11 @@ pub enum Cred {
     Pair(&'static str),
     Expired,
     Revoked,
+    /// engineer token claimed in the same clock second as another token (same id `pair-<seconds>`), then revoked by that id
+    RevokedTwin,
 }
 // the pairing store never issues admin tokens (a requested admin role is capped to engineer)
-const CREDS: [Cred; 8] = [Cred::None, Cred::Wrong, Cred::Admin, Cred::Pair("viewer"), Cred::Pair("operator"), Cred::Pair("engineer"), Cred::Expired, Cred::Revoked];
+const CREDS: [Cred; 9] = [Cred::None, Cred::Wrong, Cred::Admin, Cred::Pair("viewer"), Cred::Pair("operator"), Cred::Pair("engineer"), Cred::Expired, Cred::Revoked, Cred::RevokedTwin];
 
 /// Rank of a credential in the role order, by what the *endpoint's own* credential rules say:
 /// None = invalid. Used only for monotonicity (never to decide what a type requires).
@@ -510,6 +525,7 @@ fn cred_value(c: &Cred, env: &Env) -> Option<String> {
         Cred::Pair(r) => Some(env.tokens.get(r).cloned().unwrap_or_else(|| format!("no-pairing-{r}"))),
         Cred::Expired => Some(env.expired.clone()),
         Cred::Revoked => Some(env.revoked.clone()),
+        Cred::RevokedTwin => Some(env.revoked_twin.clone()),
     }
 }
 
